@@ -133,6 +133,24 @@ fn judge_pair(ctx: &mut Ctx, a: &MV, b: &MV, ca: &Version, cb: &Version, how: &s
     let mn = std::cmp::min(ca, cb);
     if (c == Ordering::Less && (mx != cb || mn != ca)) || (c == Ordering::Greater && (mx != ca || mn != cb)) {
         ctx.violation(&format!("minmax/{}", cls), w, "std::cmp::max/min disagree with cmp".into());
+        return;
+    }
+    // the provided methods of Ord taken by value (an impl may override them): the result must
+    // be one of the two operands, field for field, and the right one unless they tie
+    ctx.eval(1);
+    let same = |x: &Version, y: &Version| x.major == y.major && x.minor == y.minor && x.patch == y.patch && x.pre_release == y.pre_release && x.build == y.build;
+    match guarded(|| (ca.clone().max(cb.clone()), ca.clone().min(cb.clone()), std::cmp::max(ca.clone(), cb.clone()), std::cmp::min(ca.clone(), cb.clone()), ca.clone().clamp(std::cmp::min(ca, cb).clone(), std::cmp::max(ca, cb).clone()))) {
+        Err(p) => ctx.violation(&format!("panic/{}", p.site), w, p.message),
+        Ok((vmax, vmin, fmax, fmin, clamped)) => {
+            let (hi, lo) = if want == Ordering::Greater { (ca, cb) } else { (cb, ca) };
+            let ok_hi = |x: &Version| if want == Ordering::Equal { same(x, ca) || same(x, cb) } else { same(x, hi) };
+            let ok_lo = |x: &Version| if want == Ordering::Equal { same(x, ca) || same(x, cb) } else { same(x, lo) };
+            if !ok_hi(&vmax) || !ok_hi(&fmax) || !ok_lo(&vmin) || !ok_lo(&fmin) {
+                ctx.violation(&format!("minmax-by-value/{}", cls), w, format!("a.max(b) = {}, a.min(b) = {}, std::cmp::max = {}, std::cmp::min = {}; SemVer order of a vs b is {:?}", vmax, vmin, fmax, fmin, want));
+            } else if !same(&clamped, ca) {
+                ctx.violation(&format!("clamp/{}", cls), w, format!("a.clamp(min(a,b), max(a,b)) = {} is not a", clamped));
+            }
+        }
     }
 }
 
